@@ -331,6 +331,37 @@ def s_main(rng):
     return {'op': 'main', 'model': m, 'opts': gen_opts(rng), 'inputs': inputs}
 
 
+def s_loads(rng):
+    s = gen_stream_text(rng, wf=maybe(rng, 0.8))
+    if maybe(rng, 0.25):
+        s = gen.perturb(rng, s)
+    if maybe(rng, 0.3):
+        s = s.replace(' ', rng.choice(gen.EXOTIC + ['\x0b', '\x0c']), 1)
+    s = gen.newline_variant(rng, s)
+    op = {'op': 'loads', 'model': rng.choice(['default', 'amr', 'noop'])}
+    k = rng.random()
+    if k < 0.3:
+        op.update({'s': s, 'container': 'str'})
+    elif k < 0.5:
+        op.update(gen.container_variants(rng, s))
+        op['container'] = 'lines' if 'lines' in op else 'str'
+    elif k < 0.75:
+        op.update({'s': s, 'container': 'stringio'})
+        op['container'] = 'file'       # StringIO(newline=None) and a real file share the model (fileLines)
+        if maybe(rng, 0.5):
+            op['real_container'] = 'stringio'
+    else:
+        op.update({'s': s, 'container': 'file'})
+    return op
+
+
+def s_dumps(rng):
+    m = rng.choice(['default', 'amr'])
+    gs = [gen.gen_graph(rng, m, mode=rng.choice(['decoded', 'decoded', 'hand'])) for _ in range(rng.choice([0, 1, 2, 3]))]
+    return {'op': 'dumps', 'graphs': [j_graph(g) for g in gs], 'model': m, 'indent': rng.choice([-1, None, 2]),
+            'compact': maybe(rng, 0.3)}
+
+
 STREAMS = {
     'lex': s_lex_random, 'parse': s_parse_random, 'parse_triples': s_parse_triples, 'format': s_format,
     'format_triples': s_format_triples, 'interpret': s_interpret, 'decode': s_decode, 'configure': s_configure,
@@ -338,7 +369,7 @@ STREAMS = {
     'diagnostics': s_diagnostics, 'model_role': s_model_role, 'model_triple': s_model_triple, 'dereify': s_dereify,
     'errors': s_errors, 'canonicalize_roles': s_canonicalize_roles, 'transform': s_transform,
     'graph_new': s_graph_new, 'graph_filter': s_graph_filter, 'graph_ops': s_graph_ops, 'quote': s_quote,
-    'evaluate': s_evaluate, 'main': s_main,
+    'evaluate': s_evaluate, 'main': s_main, 'loads': s_loads, 'dumps': s_dumps,
 }
 
 
